@@ -109,6 +109,46 @@ example : cdxMimeStatus (lit "HTTP/1.0  200\nX: 1\nContent-Type:application/vnd.
 example : cdxMimeStatus (lit "HTTP/1.1 200 OK\r\nContent-Type: garbage\r\n\r\n") = (lit "-", lit "200") := by decide
 example : cdxMimeStatus (lit "no header here") = (lit "-", lit "-") := by decide
 
+
+/-! ### the status/MIME parse: full statement, and the region where the code violates it -/
+
+/-- the Content-Type value of a header block read the way it is on the wire: lines end at LF
+only (what `Stream.read_response` delivers), the first line whose name is `Content-Type` -/
+def wireContentType (hdr : Bytes) : Str :=
+  match ((splitOn1 hdr 10).drop 1).filterMap (fun line =>
+      match findSub line [58] with
+      | none => none
+      | some i => if asciiTitle (strip (line.take i)) == contentTypeName then some (strip (line.drop (i + 1))) else none) with
+  | v :: _ => v
+  | [] => []
+
+/-- the full statement: the MIME column is the MIME type of the wire header -/
+def status_mime_full : Prop :=
+  ∀ hdr body, WireHeader hdr → (cdxMimeStatus (hdr ++ body)).1 = mimeOf (wireContentType hdr)
+
+def linesepWitness : Bytes := lit "HTTP/1.1 200 OK\nX-Note: a\u0085Content-Type: evil/x\nContent-Type: text/html\n\n"
+
+theorem linesepWitness_wire : WireHeader linesepWitness :=
+  ⟨[lit "HTTP/1.1 200 OK\n", lit "X-Note: a\u0085Content-Type: evil/x\n", lit "Content-Type: text/html\n"], [10],
+   by decide, by decide,
+   by intro l hl
+      simp only [List.mem_cons, List.not_mem_nil, or_false] at hl
+      rcases hl with rfl | rfl | rfl
+      · exact ⟨⟨lit "HTTP/1.1 200 OK", by decide, by decide⟩, by unfold IsBlank; decide⟩
+      · exact ⟨⟨lit "X-Note: a\u0085Content-Type: evil/x", by decide, by decide⟩, by unfold IsBlank; decide⟩
+      · exact ⟨⟨lit "Content-Type: text/html", by decide, by decide⟩, by unfold IsBlank; decide⟩,
+   Or.inl rfl⟩
+
+set_option maxRecDepth 100000 in
+/-- **status_mime_full_counterexample** — the known finding `cdx-mime-linesep`: a NEL inside a
+field value (one header line on the wire) is taken for a line break by `str.splitlines()`;
+the CDX line then says `evil/x` where the response's Content-Type is `text/html`. -/
+theorem status_mime_full_counterexample : ¬ status_mime_full := by
+  intro h
+  have := h linesepWitness [] linesepWitness_wire
+  revert this
+  decide
+
 -- non-vacuity of the history theorems: one exchange, appending to a 3-byte file, CDX on
 set_option maxRecDepth 100000 in
 example :
